@@ -37,6 +37,12 @@ Theorem C19_reports_truthfully : forall os, os_spec os -> forall c w p w',
 Proof. exact reports_truthfully. Qed.
 Print Assumptions C19_reports_truthfully.
 
+(* The port file determines the reported list: reading it line by line as decimal integers gives back
+   exactly flags.port followed by flags.ports (so two different port lists never share a file content). *)
+Theorem C19_port_file_readable : forall l, read_port_file (port_lines l) = l.
+Proof. exact read_port_file_lines. Qed.
+Print Assumptions C19_port_file_readable.
+
 (* Every configured (address, port) pair has a listener bound to it (to exactly that port when it
    is fixed, to a non-zero port when it is 0), the unix socket exists when configured, nothing else
    is listened on, there is exactly one listener per endpoint, and all of them are open. *)
